@@ -21,7 +21,12 @@ void  *vf_raw(size_t n);                                  /* zero-filled raw sto
 void   vf_fail(const char *why);
 /* virtual file system + stream inspection for API-layer harnesses */
 void   vf_file(const char *name, const char *content);      /* make `name` openable with this content */
-long   vf_stream_content(void *istream, char *buf, long cap); /* copy the unread content of an input stream */                          /* harness-internal error (never a violation) */
+long   vf_stream_content(void *istream, char *buf, long cap); /* copy the unread content of an input stream */
+/* lock discipline (Eraser style): every access to [p,p+n) must happen while `mutex` is held (engine B only;
+   a no-op natively: violations are confirmed by a multi-threaded stress run, see @opts confirm=stress) */
+void   vf_guarded(void *p, size_t n, void *mutex, const char *name);
+void   vf_guard_enable(int on);
+long   vf_locks_held(void);                          /* harness-internal error (never a violation) */
 #ifdef __cplusplus
 }
 #endif
